@@ -953,6 +953,16 @@ func Select(arr, idx *Term) *Term {
 	if arr.Op == "constarr" {
 		return arr.Args[0]
 	}
+	if arr.Op == "var" && idx.Op == "mkaddr" && idx.Args[0].IsConst() && idx.Args[0].Val.Sign() > 0 && strings.HasSuffix(arr.Name, "@0") {
+		// memory allocated during this execution is zero-initialised: a read that
+		// reaches the initial array at a freshly allocated region yields zero
+		if z := zeroOf(el); z != nil {
+			return z
+		}
+	}
+	if arr.Op == "ite" {
+		return Ite(arr.Args[0], Select(arr.Args[1], idx), Select(arr.Args[2], idx))
+	}
 	return mk("select", el, arr, idx)
 }
 
@@ -1399,4 +1409,20 @@ func (s *Script) Render(logic string, specText string, predeclared map[string]bo
 	}
 	sb.WriteString(tail)
 	return sb.String()
+}
+
+func zeroOf(s Sort) *Term {
+	switch {
+	case s == SBool:
+		return False
+	case s.IsBV():
+		return BVc(0, s.Width())
+	case s == SAddr:
+		return NilAddr
+	case s == SF64:
+		return FPConstBits(0, 64)
+	case s == SF32:
+		return FPConstBits(0, 32)
+	}
+	return nil
 }
